@@ -27,6 +27,15 @@ CLAIMS = {
         design="6 C04",
         technique="explicit TLA+ spec + TLC model checking; TLC-generated histories replayed on the code and judged by TLC (trace validation)",
     ),
+    "C15": dict(
+        spec="FsVars.tla / FsVarsGen.tla / FsVarsJudge.tla",
+        text="TLC model-checks the session-variable specification (value of a reference = last SET of exactly that folded name on "
+        "that connection; string literals untouched; undefined => error and stutter; per connection) and generates the transition "
+        "cover, all operation sequences up to a bounded length over a tiny vocabulary, and random histories over prefix-related "
+        "names, three spellings, two connections and two kinds of cursors; each is replayed on the real code and judged by TLC.",
+        design="6 C15",
+        technique="explicit TLA+ spec + TLC model checking; TLC-generated histories replayed on the code and judged by TLC (trace validation)",
+    ),
 }
 
 
